@@ -330,7 +330,7 @@ func c26Lists() []c26Val {
 		L(`[false]`, false),
 		L(`[null]`, nil),
 		L(`[Row()]`, &Call{Name: "Row"}),
-		L(`[` + c26TS + `]`, c26TS),
+		L(`[`+c26TS+`]`, c26TS),
 	}
 }
 
@@ -581,18 +581,25 @@ func c26ArgLists(n, limit int, forms []c26Arg, f func(text string, set func(c *C
 	idx := make([]int, n)
 	for {
 		parts := make([]string, n)
+		grammatical := true
 		for i := 0; i < n; i++ {
 			parts[i] = strings.Replace(forms[idx[i]].text, "%K", c26Keys[i], 1)
+			// the between form `lo < field < hi` takes a fieldExpr only: reserved names (_row, ...) are not in the grammar there
+			if !strings.HasPrefix(forms[idx[i]].text, "%K") && strings.HasPrefix(c26Keys[i], "_") {
+				grammatical = false
+			}
 		}
 		cp := append([]int(nil), idx...)
-		f(strings.Join(parts, ", "), func(c *Call) {
-			if c.Args == nil {
-				c.Args = map[string]interface{}{}
-			}
-			for i := 0; i < n; i++ {
-				c.Args[c26Keys[i]] = forms[cp[i]].val()
-			}
-		})
+		if grammatical {
+			f(strings.Join(parts, ", "), func(c *Call) {
+				if c.Args == nil {
+					c.Args = map[string]interface{}{}
+				}
+				for i := 0; i < n; i++ {
+					c.Args[c26Keys[i]] = forms[cp[i]].val()
+				}
+			})
+		}
 		p := n - 1
 		for p >= 0 {
 			idx[p]++
@@ -1293,7 +1300,7 @@ func TestVerif_C26(t *testing.T) {
 	}
 	strLen := c.Pick(2, 3)
 	posLen := c.Pick(2, 3)
-	debug.SetGCPercent(400) // throughput only: every ParseString allocates a 32767-entry token array
+	debug.SetGCPercent(1000) // throughput only: every ParseString allocates a 32767-entry token array
 	depth := c.Pick(2, 3)
 	strs := c26Strings(strLen)
 	c.Bound("string_symbols", c26Syms)
